@@ -40,6 +40,17 @@ def run(ctx):
     labels = list(dict.fromkeys(labels))
     events = THROWS + ['LJ', '100', 'SP7.26K', 'sp', 'JT800', 'HJ', '4x100', 'DEC', 'XX']
     genders = ['M', 'F', 'm', 'X']
+    # stir first: the labels in forms the library does not produce itself (lower case, padded) and lower-case events are asked
+    # BEFORE the proper ones — the answers for the proper labels must not depend on that (judged below)
+    stir = [f(a) for a in LIB_LABELS[1::2] for f in (str.lower, lambda x: ' ' + x, lambda x: x + ' ')]       # every other label: a poisoned answer then stands out among its neighbours
+    for ev in THROWS + [e.lower() for e in THROWS]:
+        for g in ('M', 'F', 'm', 'f'):
+            for ag in stir:
+                try: athlib.get_implement_weight(ev, g, ag)
+                except Exception: pass
+                try: athlib.get_specific_event_code(ev, g, ag)
+                except Exception: pass
+    ctx.count(len(stir) * len(THROWS) * 8 * 2, 'stir_calls')
     lines = []; impl = []; reqs = []
     for ev in events:
         for g in genders:
@@ -63,7 +74,9 @@ def run(ctx):
     if nd == 0: ctx.oblig('correspondence:get_implement_weight/get_specific_event_code vs regenerated rules', 'correspondence', True)
     # ---- the property on the implementation
     def fail(fn, args, expected, got, note):
-        ctx.fail(fn, args, expected, got, note=note, replay_py='result = athlib.%s(*%r)' % (fn.split('.')[-1], tuple(args)))
+        ctx.fail(fn, args, expected, got, note=note,
+                 replay_py='for f in (str.lower, lambda x: " " + x, lambda x: x + " "):\n    for e in (%r, %r):\n        for g in ("M", "F", "m", "f"):\n            try: athlib.get_implement_weight(e, g, f(%r)); athlib.get_specific_event_code(e, g, f(%r))\n            except Exception: pass\nresult = athlib.%s(*%r)'
+                           % (args[0], str(args[0]).lower(), args[-1], args[-1], fn.split('.')[-1], tuple(args)))
     nont = 0
     for ev in THROWS:
         for g in ('M', 'F'):
